@@ -266,14 +266,33 @@ def run(ctx):
            key="R19.9:handleMidi:learn",
            what="handleMidi can bind a learning slot at %s with `%s` still at its initial value: a message that identifies no controller (an incomplete NRPN sequence) is learned as controller 0" % (esc9.where() if esc9 is not None else "", idname))
 
+    def _reaches_update(name):
+        """updateMapping itself, or a method of the unit whose body calls it"""
+        if name == "updateMapping":
+            return True
+        for q_, fl_ in u.functions.items():
+            if q_.split("::")[-1] == (name or ""):
+                for f_ in fl_:
+                    if u.body(f_) is not None and any((A.callee_name(c_) or (A.strip_casts(A.kids(c_)[0]).get("name") if A.kids(c_) else None)) == "updateMapping"
+                                                       for c_ in A.walk(u.body(f_)) if c_.get("kind") in ("CallExpr", "CXXMemberCallExpr")):
+                        return True
+        return False
+
+    def _call_name(c_):
+        return A.callee_name(c_) or (A.strip_casts(A.kids(c_)[0]).get("name") if A.kids(c_) else None)
+
     # ---- R19.13: a binding starts from its own scale
     ctx.rule("R19.13", "SCALE-FRESH: createBinding and setSlotSubPath reuse the sub-automation of an earlier binding; before they hand it to updateMapping every path has assigned map.control_scale "
                        "(logarithmic or not is a property of the new parameter) - a flag that is only ever raised survives clearSlot and the next, linear parameter is mapped through exp")
     for q13 in ("AutomationMgr::createBinding", "AutomationMgr::setSlotSubPath"):
         f13 = u.function(q13)
         top13 = A.kids(u.body(f13))
-        upd = [i_ for i_, s_ in enumerate(top13) if any(A.callee_name(c_) == "updateMapping" or (A.strip_casts(A.kids(c_)[0]).get("name") == "updateMapping" if A.kids(c_) else False) for c_ in A.walk(s_) if c_.get("kind") in ("CallExpr", "CXXMemberCallExpr"))]
+        upd = [i_ for i_, s_ in enumerate(top13) if any(_reaches_update(_call_name(c_)) for c_ in A.walk(s_) if c_.get("kind") in ("CallExpr", "CXXMemberCallExpr"))]
         ctx.require(len(upd) >= 1, "R19.13: %s: the call of updateMapping was not found among its statements" % q13)
+        via13 = {_call_name(c_) for c_ in A.walk(top13[upd[0]]) if c_.get("kind") in ("CallExpr", "CXXMemberCallExpr") and _reaches_update(_call_name(c_))}
+        if via13 <= {"setSlotSubPath", "createBinding"} and q13.split("::")[-1] not in via13:
+            ctx.note("R19.13: %s computes the mapping through %s, whose own instance of the rule decides the scale" % (q13, sorted(via13)))
+            continue
         before13 = top13[:upd[0]]
         ok13 = any(_definitely_assigns(s_, "control_scale") for s_ in before13)
         some13 = any(_assigns_member(y_, "control_scale") for s_ in before13 for y_ in A.walk(s_))
@@ -297,8 +316,9 @@ def run(ctx):
     for q in ("AutomationMgr::createBinding", "AutomationMgr::setSlotSubPath"):
         fnq = u.function(q)
         top = A.kids(u.body(fnq))
-        calls = [i_ for i_, s_ in enumerate(top) if any(A.callee_name(c) == "updateMapping" for c in A.calls_in(s_))]
-        ctx.require(len(calls) == 1, "%s: expected one updateMapping call" % q)
+        calls = [i_ for i_, s_ in enumerate(top) if any(_reaches_update(_call_name(c)) for c in A.walk(s_) if c.get("kind") in ("CallExpr", "CXXMemberCallExpr"))]
+        ctx.require(len(calls) >= 1, "%s: no call that computes the mapping (updateMapping, directly or through a method of the unit) found" % q)
+        calls = calls[-1:]     # what the mapping reads has to be stored before the LAST computation of it
         late = []
         for i_, s_ in enumerate(top):
             if i_ <= calls[0]:
@@ -386,96 +406,122 @@ def run(ctx):
                        what="%s renumbers the learn queue over the slots %s only (of 0..3): a waiting slot outside that range keeps its old position" % (q11, bad11[0]["slots_visited"] if bad11 else ""))
     ctx.require(n11 >= 1, "R19.11: no counted renumbering loop found")
 
-    # ---- R19.2
-    fn = u.function("AutomationMgr::setSlotSub")
-    emits = [c for c in A.calls_in(u.body(fn), "rtosc_message")]
-    ctx.require(len(emits) == 3, "setSlotSub: expected 3 emit sites, found %d" % len(emits))
-    n2 = 0
-    valp = u.params(fn)[2]
-    # the mapped input: the variable(s) computed from the slot value parameter; the bounds: the variables read from param_min/max
-    def _mentions_member(d, name):
-        return any(y.get("kind") == "MemberExpr" and y.get("name") == name for y in A.walk(d))
-    fvars = [d for d in A.walk(u.body(fn)) if d.get("kind") == "VarDecl" and A.kids(d)]
-    inputs = {d["id"] for d in fvars if valp["id"] in _refs(A.kids(d)[-1])}
-    lo_ids = {d["id"] for d in fvars if _mentions_member(d, "param_min")}
-    hi_ids = {d["id"] for d in fvars if _mentions_member(d, "param_max")}
-    ctx.require(inputs and lo_ids and hi_ids, "setSlotSub: mapped value / bounds variables not found")
-    LO, HI = 2.0, 10.0
-    for c in emits:
-        fmt = OF.format_literals(A.kids(c)[4])
-        if fmt is None or fmt in (["T", "F"], ["F", "T"]):
-            continue
-        tag = fmt[0]
-        # enclosing compound statement of the branch
-        br = None
-        for p in u.ancestors(c):
-            if p.get("kind") == "CompoundStmt":
-                br = p
-                break
-        stmts = A.kids(br)
-        ci = next(i for i, s_ in enumerate(stmts) if _contains(s_, c))
-        arg = A.kids(c)[5] if len(A.kids(c)) > 5 else None
-        # where the evaluation starts: just after the mapped value is computed if that happens inside the branch
-        start = 0
-        inner_in = None
-        for i, s_ in enumerate(stmts[:ci]):
-            if s_.get("kind") == "DeclStmt":
-                for d in A.kids(s_):
-                    if d.get("id") in inputs:
-                        start, inner_in = i + 1, d["id"]
-        bad = []
-        foreign = []
-        exp_applied = {}
-        for scale in (0, 1):
-            for x0 in (0.5, 2.0, 2.5, 9.75, 10.0, 11.5):
-                env = {i_: x0 for i_ in (inputs if inner_in is None else {inner_in})}
-                env.update({i_: LO for i_ in lo_ids})
-                env.update({i_: HI for i_ in hi_ids})
+    # ---- R19.2 / R19.10: setSlotSub evaluated as a whole function on a model automation; the older reading of the two emit
+    # branches remains for a function the evaluation cannot follow
+    from ..rules import slotmap as SM
+    fn2 = u.function("AutomationMgr::setSlotSub")
+    try:
+        sm = SM.check(u)
+    except FD.Unknown as e:
+        sm = None
+        ctx.note("R19.2: setSlotSub not evaluable as a whole (%s); its emit branches are read instead" % e)
+    if sm is not None:
+        for tag in "if":
+            r_ = sm[tag]
+            ctx.ob("R19.10", "setSlotSub '%s'" % tag, not r_["bad_exp"], site=A.where(fn2), detail={"mismatches": r_["bad_exp"][:4], "cases": r_["cases"]},
+                   key="R19.10:setSlotSub:%s" % tag,
+                   what="setSlotSub '%s': for a logarithmic scale the bounds are stored as logarithms, but the emitted value goes through exp %s - the message carries the logarithm of the value (below the declared minimum), or a linear value exponentiated" % (tag, [(w["log_scale"], w["exp_applied"]) for w in r_["bad_exp"][:2]]))
+            ctx.ob("R19.2", "setSlotSub '%s'" % tag, not r_["bad"], site=A.where(fn2), detail={"cases": r_["cases"], "mismatches": r_["bad"][:4], "evaluated": "whole function"},
+                   what="setSlotSub '%s': the emitted value is not clamp(value*(b-a)+a, min, max) up to a monotone library function: %s" % (tag, r_["bad"][:2]))
+        ctx.ob("R19.2", "setSlotSub 'T'", not sm["T"]["bad"], site=A.where(fn2), detail={"cases": sm["T"]["cases"], "mismatches": sm["T"]["bad"][:3]},
+               what="setSlotSub: the toggle branch does not emit exactly T or F without arguments: %s" % sm["T"]["bad"][:2])
+        ctx.ob("R19.2", "setSlotSub: unknown tag / unused automation", not sm["other"]["bad"], site=A.where(fn2), detail={"mismatches": sm["other"]["bad"]},
+               key="R19.2:setSlotSub:silent", what="setSlotSub emits a message for a type it does not know or for an unused automation: %s" % sm["other"]["bad"][:2])
 
-                def hook(n, ev, scale=scale):
-                    if n.get("kind") == "MemberExpr" and n.get("name") == "control_scale":
-                        return scale
-                    return NotImplemented
+    def _emit_branches():
+        fn = u.function("AutomationMgr::setSlotSub")
+        emits = [c for c in A.calls_in(u.body(fn), "rtosc_message")]
+        ctx.require(len(emits) == 3, "setSlotSub: expected 3 emit sites, found %d" % len(emits))
+        n2 = 0
+        valp = u.params(fn)[2]
+        # the mapped input: the variable(s) computed from the slot value parameter; the bounds: the variables read from param_min/max
+        def _mentions_member(d, name):
+            return any(y.get("kind") == "MemberExpr" and y.get("name") == name for y in A.walk(d))
+        fvars = [d for d in A.walk(u.body(fn)) if d.get("kind") == "VarDecl" and A.kids(d)]
+        inputs = {d["id"] for d in fvars if valp["id"] in _refs(A.kids(d)[-1])}
+        lo_ids = {d["id"] for d in fvars if _mentions_member(d, "param_min")}
+        hi_ids = {d["id"] for d in fvars if _mentions_member(d, "param_max")}
+        ctx.require(inputs and lo_ids and hi_ids, "setSlotSub: mapped value / bounds variables not found")
+        LO, HI = 2.0, 10.0
+        for c in emits:
+            fmt = OF.format_literals(A.kids(c)[4])
+            if fmt is None or fmt in (["T", "F"], ["F", "T"]):
+                continue
+            tag = fmt[0]
+            # enclosing compound statement of the branch
+            br = None
+            for p in u.ancestors(c):
+                if p.get("kind") == "CompoundStmt":
+                    br = p
+                    break
+            stmts = A.kids(br)
+            ci = next(i for i, s_ in enumerate(stmts) if _contains(s_, c))
+            arg = A.kids(c)[5] if len(A.kids(c)) > 5 else None
+            # where the evaluation starts: just after the mapped value is computed if that happens inside the branch
+            start = 0
+            inner_in = None
+            for i, s_ in enumerate(stmts[:ci]):
+                if s_.get("kind") == "DeclStmt":
+                    for d in A.kids(s_):
+                        if d.get("id") in inputs:
+                            start, inner_in = i + 1, d["id"]
+            bad = []
+            foreign = []
+            exp_applied = {}
+            for scale in (0, 1):
+                for x0 in (0.5, 2.0, 2.5, 9.75, 10.0, 11.5):
+                    env = {i_: x0 for i_ in (inputs if inner_in is None else {inner_in})}
+                    env.update({i_: LO for i_ in lo_ids})
+                    env.update({i_: HI for i_ in hi_ids})
 
-                def call(name, vals, n, scale=scale, x0=x0):
-                    if name in MONOTONE and len(vals) == 1:
-                        if name.startswith("exp"):
-                            exp_applied.setdefault((scale, x0), 0)
-                            exp_applied[(scale, x0)] += 1
-                        return vals[0]          # a monotone map keeps the value inside the image of [min,max]: tracked as identity
-                    fns = [f for f in u.functions.get(name, []) if u.body(f) is not None]
-                    if len(fns) == 1:
-                        return ev.call_function(u, fns[0], vals)
-                    foreign.append(name)
-                    return float("nan")
-                ev = FD.Eval(env=env, node_hook=hook, call=call)
-                try:
-                    for s_ in stmts[start:ci]:
-                        ev.run(s_)
-                    out = ev.ev(arg) if arg is not None else None
-                except FD.Unknown as e:
-                    raise AnalysisBroken("R19.2: '%s' branch not evaluable: %s" % (tag, e))
-                except (ValueError, OverflowError):
-                    out = None
-                exp = min(max(x0, LO), HI)
-                if out is None or out != out or (float(out) != exp if tag == "f" else int(out) != int(exp)):
-                    bad.append({"mapped": x0, "log_scale": scale, "emitted": None if out is None or out != out else out, "expected": exp})
-        # R19.10: the bounds of a log-scale parameter are kept as logarithms (createBinding / setSlotSubPath do so for every
-        # type), so the emitted value must go through exp exactly when the scale is logarithmic
-        wrong10 = [{"log_scale": sc, "mapped": x_, "exp_applied": exp_applied.get((sc, x_), 0)} for sc in (0, 1) for x_ in (0.5, 2.0, 2.5, 9.75, 10.0, 11.5)
-                   if exp_applied.get((sc, x_), 0) != sc]
-        ctx.ob("R19.10", "setSlotSub '%s'" % tag, not wrong10, site=A.where(c), detail={"mismatches": wrong10[:4]},
-               key="R19.10:setSlotSub:%s" % tag,
-               what="setSlotSub '%s': for a logarithmic scale the bounds are stored as logarithms, but the emitted value goes through exp %s - the message carries the logarithm of the value (below the declared minimum), or a linear value exponentiated" % (tag, [(w["log_scale"], w["exp_applied"]) for w in wrong10[:2]]))
-        n2 += 1
-        ctx.ob("R19.2", "setSlotSub '%s'" % tag, arg is not None and not bad, site=A.where(c),
-               detail={"cases": 12, "mismatches": bad[:4], "non_monotone_calls": sorted(set(foreign))},
-               what="setSlotSub '%s': the emitted value is not clamp(mapped, min, max) up to a monotone library function: %s %s" % (tag, bad[:2], sorted(set(foreign))))
-    ctx.require(n2 == 2, "R19.2: expected the 'i' and 'f' emit branches")
-    # toggle branch: emits only T/F
-    tf = [c for c in emits if OF.format_literals(A.kids(c)[4]) in (["T", "F"], ["F", "T"])]
-    ctx.ob("R19.2", "setSlotSub 'T'", len(tf) == 1 and len(A.kids(tf[0])) == 5, site=A.where(tf[0]) if tf else A.where(fn),
-           what="setSlotSub: the toggle branch does not emit exactly T or F without arguments")
+                    def hook(n, ev, scale=scale):
+                        if n.get("kind") == "MemberExpr" and n.get("name") == "control_scale":
+                            return scale
+                        return NotImplemented
+
+                    def call(name, vals, n, scale=scale, x0=x0):
+                        if name in MONOTONE and len(vals) == 1:
+                            if name.startswith("exp"):
+                                exp_applied.setdefault((scale, x0), 0)
+                                exp_applied[(scale, x0)] += 1
+                            return vals[0]          # a monotone map keeps the value inside the image of [min,max]: tracked as identity
+                        fns = [f for f in u.functions.get(name, []) if u.body(f) is not None]
+                        if len(fns) == 1:
+                            return ev.call_function(u, fns[0], vals)
+                        foreign.append(name)
+                        return float("nan")
+                    ev = FD.Eval(env=env, node_hook=hook, call=call)
+                    try:
+                        for s_ in stmts[start:ci]:
+                            ev.run(s_)
+                        out = ev.ev(arg) if arg is not None else None
+                    except FD.Unknown as e:
+                        raise AnalysisBroken("R19.2: '%s' branch not evaluable: %s" % (tag, e))
+                    except (ValueError, OverflowError):
+                        out = None
+                    exp = min(max(x0, LO), HI)
+                    if out is None or out != out or (float(out) != exp if tag == "f" else int(out) != int(exp)):
+                        bad.append({"mapped": x0, "log_scale": scale, "emitted": None if out is None or out != out else out, "expected": exp})
+            # R19.10: the bounds of a log-scale parameter are kept as logarithms (createBinding / setSlotSubPath do so for every
+            # type), so the emitted value must go through exp exactly when the scale is logarithmic
+            wrong10 = [{"log_scale": sc, "mapped": x_, "exp_applied": exp_applied.get((sc, x_), 0)} for sc in (0, 1) for x_ in (0.5, 2.0, 2.5, 9.75, 10.0, 11.5)
+                       if exp_applied.get((sc, x_), 0) != sc]
+            ctx.ob("R19.10", "setSlotSub '%s'" % tag, not wrong10, site=A.where(c), detail={"mismatches": wrong10[:4]},
+                   key="R19.10:setSlotSub:%s" % tag,
+                   what="setSlotSub '%s': for a logarithmic scale the bounds are stored as logarithms, but the emitted value goes through exp %s - the message carries the logarithm of the value (below the declared minimum), or a linear value exponentiated" % (tag, [(w["log_scale"], w["exp_applied"]) for w in wrong10[:2]]))
+            n2 += 1
+            ctx.ob("R19.2", "setSlotSub '%s'" % tag, arg is not None and not bad, site=A.where(c),
+                   detail={"cases": 12, "mismatches": bad[:4], "non_monotone_calls": sorted(set(foreign))},
+                   what="setSlotSub '%s': the emitted value is not clamp(mapped, min, max) up to a monotone library function: %s %s" % (tag, bad[:2], sorted(set(foreign))))
+        ctx.require(n2 == 2, "R19.2: expected the 'i' and 'f' emit branches")
+        # toggle branch: emits only T/F
+        tf = [c for c in emits if OF.format_literals(A.kids(c)[4]) in (["T", "F"], ["F", "T"])]
+        ctx.ob("R19.2", "setSlotSub 'T'", len(tf) == 1 and len(A.kids(tf[0])) == 5, site=A.where(tf[0]) if tf else A.where(fn),
+               what="setSlotSub: the toggle branch does not emit exactly T or F without arguments")
+
+
+    if sm is None:
+        _emit_branches()
 
     # ---- R19.3
     vtab = OF.va_table(ctx.ast("rtosc.c"))
